@@ -211,6 +211,13 @@ def run(prog, R):
             lp = [c for c in ps[0].calls if c[0] == "oq3_parser::lexed_str::LexedStr::push"]
             ok = len(lp) == 1 and lp[0][1][1] == ("adt", "oq3_parser::syntax_kind::syntax_kind_enum::SyntaxKind::EOF", ()) and lp[0][1][2] == ("field", ("arg", 1, "self"), 1)
         R.ob("C14.4-final-offset", "finalize pushes (EOF, offset)", ok, fe.at, "")
+    # who may write Converter.offset: initialised by Converter::new, advanced by Converter::push by the token's length
+    # and nowhere else (skipping bytes without a token leaves them outside every token)
+    ws = set()
+    for s_ in field_sites(prog, "oq3_parser::lexed_str::Converter", "offset"):
+        if s_["mode"] in ("write", "refmut", "rawptr", "move"):
+            ws.add(s_["body"].npath)
+    R.ob("C14.4-writers", "Converter.offset", ws <= {"oq3_parser::lexed_str::Converter::push", "oq3_parser::lexed_str::Converter::new"} and "oq3_parser::lexed_str::Converter::push" in ws, "", f"writers {sorted(ws)}")
     # who may write LexedStr.start / kind
     for fld in ("start", "kind"):
         ws = set()
